@@ -178,6 +178,7 @@ class NativeState:
     def __init__(self):
         self.calls = {}
         self.log = []
+        self.boom_by_fid = {}
 
 
 def make_native(yp, op, nstate):
@@ -185,6 +186,12 @@ def make_native(yp, op, nstate):
     rows = op["rows"]
     rc, rr = op["raise"]["call"], op["raise"]["row"]
     yv = bool(op.get("yields", False))
+    kind = op["raise"].get("exc", "custom")
+    if kind != "custom":
+        # an ordinary exception type raised inside the predicate body; it must reach the consumer
+        # as this very object
+        nstate.boom_by_fid[fid] = {"TypeError": TypeError, "ValueError": ValueError, "KeyError": KeyError,
+                                   "RuntimeError": RuntimeError, "StopIteration": RuntimeError}[kind]("raised inside the predicate %s" % fid)
 
     def body(args):
         nstate.calls[fid] = nstate.calls.get(fid, 0) + 1
@@ -193,14 +200,14 @@ def make_native(yp, op, nstate):
         yielded = 0
         for row in rows:
             if rc == callno and rr == yielded:
-                raise nstate.boom
+                raise nstate.boom_by_fid.get(fid, nstate.boom)
             env = {}
             rowterms = [build(yp, t, env) for t in row["args"]]
             for _ in engine.unify_arrays(list(args), rowterms):
                 yield yv
                 yielded += 1
         if rc == callno and rr == yielded:
-            raise nstate.boom
+            raise nstate.boom_by_fid.get(fid, nstate.boom)
 
     arity = op["arity"]
     style = op.get("style", "explicit")
@@ -257,6 +264,10 @@ class Runner:
             if e is not self.nstate.boom:
                 return {"k": "exception", "exc": "NativeBoom(other object)"}
             return {"k": "raised", "stale": self.check_saved(r)}
+        except Exception as e:
+            if any(e is b for b in self.nstate.boom_by_fid.values()):
+                return {"k": "raised", "stale": self.check_saved(r)}
+            raise
         o = {"k": "answer", "ans": project_tuple(self.qv[r])}
         if self.opts.get("c15", True):
             # what the public accessors return at this answer (a consumer reads answers through
